@@ -83,6 +83,7 @@ def monitor(lines, outl):
             got = [int(x) for x in d["ret"].split(",")] if d["ret"] else []
             if got != want: bad.append((idx, "returned row %d = %s, true %s" % (k, got, want)))
         if "UB" in ot: bad.append((idx, "UB"))
+        if "!OOB" in ot: bad.append((idx, "const row(%s,0,%s,storage) wrote outside the requested range of the caller's buffer" % (t[1], t[2])))
         # two most recently requested rows: the previous row stays valid when capacity allows both
         if t[0] == "R" and prev is not None and prev[0] == "R" and prev[1] != t[1] and prev_lens is not None:
             pk = int(prev[1])
@@ -373,8 +374,9 @@ def gen_comp(rng, big=False):
     cap = rng.choice([N, 2 * N, N * N, rng.randint(N, N * N + 3), rng.randint(1, N)])
     g = rng.choice([1, 3, 5])
     pre = []
-    if wrap == "c" or kind in "EBDG" or os.environ.get("C09_PREFLIP_KERNEL"):   # KernelMatrix::matrix() ignores flips: see Properties_C09.v
-        pre = [rng.randrange(N) for _ in range(2 * rng.randint(0, 3))]
+    # flips of the base BEFORE the wrapper is constructed.  For PrecomputedMatrix over KernelMatrix / Regularized / Modified this hits the
+    # known finding C09-PREFLIP (KernelMatrix::matrix() ignores earlier flips): reported with the key comp:precomputed-over-flipped-base
+    pre = [rng.randrange(N) for _ in range(2 * rng.randint(0, 3))]
     ops = []
     for _ in range(rng.randint(4, 60 if big else 36)):
         r = rng.random()
@@ -385,7 +387,8 @@ def gen_comp(rng, big=False):
             elif r < 0.73: ops.append("M %d" % rng.randint(0, N))
             elif r < 0.76: ops.append("X")
             else:
-                e = rng.randint(0, N); ops.append("Q %d %d %d" % (rng.randrange(N), rng.choice([0, 0, rng.randint(0, e)]), e))
+                # all positions relative to the cached part of the line occur: end < cached, start > cached, start = end, ...
+                e = rng.randint(0, N); ops.append("Q %d %d %d" % (rng.randrange(N), rng.choice([0, rng.randint(0, e), rng.randint(0, e), e]), e))
         else:
             if r < 0.4: ops.append("F %d %d" % (rng.randrange(N), rng.randrange(N)))
             else:
@@ -436,7 +439,7 @@ def monitor_comp(lines, outl):
         t = l.split(); d = parse_state(o.split())
         if t[0] == "F":
             i, j = int(t[1]), int(t[2]); perm[i], perm[j] = perm[j], perm[i]
-        if "!OOB" in o: return ["line %d `%s`: %s::row wrote outside the caller's buffer" % (idx, l, what)]
+        if "!OOB" in o: return ["line %d `%s`: const-row-out-of-range: %s::row(k,start,end,storage) wrote outside the cells [start,end) of the caller's buffer" % (idx, l, what)]
         if " EXC" in o or "acc" not in d: return ["line %d `%s`: %s raised / printed no state" % (idx, l, what)]
         if "E" in d:
             vals = [val(x) for x in d["E"].split(",")] if d["E"] else []
@@ -504,16 +507,28 @@ def comp_stream(ck, n, big=False):
         cases.append([l for l, ol in zip(c, o) if not ol.endswith("REJECT")])
     io = run_cases(exe, cases, os.path.join(tmpd, "impl.txt"))
     mo = run_cases(model, cases, os.path.join(tmpd, "model.txt"))
-    nmon = ndis = 0; kinds = {}; first_dis = None
+    nmon = ndis = nknown = 0; kinds = {}; first_dis = None
     for ci, c in enumerate(cases):
         (b, rcb, eb), (a, rca, ea) = io[ci], mo[ci]
         key = c[0].split()[1] + c[0].split()[2]; kinds[key] = kinds.get(key, 0) + 1
         msgs = ["implementation crashed rc=%s on %s" % (rcb, c[0][:60])] if rcb != 0 else monitor_comp(c, strip(b))
         if msgs:
+            info = comp_info(c[0])
+            preflip = info["wrap"] == "p" and info["kind"] in "KRM" and any(i != j for i, j in info["pre"])
+            if preflip and rcb == 0 and "::entry differs" in msgs[0] and same_lines(strip(a), strip(b), False):
+                # PrecomputedMatrix built from an already flipped KernelMatrix / Regularized / Modified: the as-coded model agrees with the
+                # implementation, the specification does not (KernelMatrix::matrix() ignores earlier flips): known finding C09-PREFLIP
+                nknown += 1
+                if nknown <= 1:
+                    cf = ck.write_replay("comp_preflip_%d.txt" % ci, "\n".join(c) + "\n")
+                    ck.violation("comp:precomputed-over-flipped-base", {"case_file": cf, "case": c, "implementation_output": b, "model_output": a, "monitor": msgs},
+                                 "spec monitor fails on the implementation: " + msgs[0])
+                continue
             nmon += 1
             if nmon <= 2:
                 cf = ck.write_replay("comp_%d.txt" % ci, "\n".join(c) + "\n")
-                ck.violation("comp:" + re.sub(r"line \d+ (`[^`]*`)?: ", "", msgs[0])[:160], {"case_file": cf, "case": c, "implementation_output": b, "model_output": a, "monitor": msgs},
+                key = "comp:const-row-out-of-range" if "const-row-out-of-range" in msgs[0] else "comp:" + re.sub(r"line \d+ (`[^`]*`)?: ", "", msgs[0])[:160]
+                ck.violation(key, {"case_file": cf, "case": c, "implementation_output": b, "model_output": a, "monitor": msgs},
                              "spec monitor fails on the implementation: " + msgs[0])
         elif not same_lines(strip(a), strip(b), c[0].split()[1] == "G"):
             ndis += 1
@@ -523,7 +538,7 @@ def comp_stream(ck, n, big=False):
         ck.violation("correspondence-composed", {"case": cases[ci], "model_output": mo[ci][0], "implementation_output": io[ci][0]},
                      "correspondence C09Comp/C09More vs CachedMatrix/PrecomputedMatrix over the kernel-matrix classes no longer checks; monitor passes on all explored inputs", no_input=True)
     ck.oblige("correspondence composed model=implementation and monitor on %d histories of CachedMatrix<Base>/PrecomputedMatrix<Base>, Base in %s" % (len(cases), sorted(kinds)), nmon == 0 and ndis == 0)
-    ck.notes["composed_cases"] = kinds
+    ck.notes["composed_cases"] = kinds; ck.notes["composed_cases_hitting_known_finding_C09_PREFLIP"] = nknown
     return sum(len(c) for c in cases)
 
 def main():
@@ -532,7 +547,7 @@ def main():
     ck.assumptions = ["operations respect the documented preconditions of CachedMatrix/LRUCache (0 < end <= min(size, capacity), indices < size)",
                       "cache stream: base matrix is a pure function of the two variable ids (free matrix of id pairs in the model; 1000*id_i+id_j in the harness); composed stream: the base is each kernel-matrix class itself (operation records of C09More.v, proved flip-aware in C09InstProofs.v / C09MoreProofs.v)",
                       "kernel of the derived / composed / more streams: LinearKernel on small integer points (exact); GaussianKernelMatrix: exp is abstract in the model, libm's exp on both sides of the comparison (1e-12)",
-                      "PrecomputedMatrix over KernelMatrix / Regularized / Modified: constructed from an unflipped base (KernelMatrix::matrix ignores earlier flips; C09_PREFLIP_KERNEL=1 generates such cases)"]
+                      "PrecomputedMatrix over KernelMatrix / Regularized / Modified constructed from an already flipped base: known finding C09-PREFLIP (KernelMatrix::matrix ignores earlier flips); these cases are generated, the as-coded model agrees with the implementation, the monitor failure is reported under the key comp:precomputed-over-flipped-base"]
     ck.proofs()
     if ck.replay and open(ck.replay).read().lstrip().startswith("C ") and open(ck.replay).read().split()[1] in COMP_KINDS:
         # replay of a composed history (build/replay/C09/comp_*.txt)
